@@ -105,11 +105,13 @@ func ReceiveDirectInvoke(w http.ResponseWriter, r *http.Request, token interop.T
 
 	now := metering.Monotime()
 
-	MaxDirectResponseSize = interop.MaxPayloadSize
+	// the settings are parsed into locals and published only once the request has been accepted: a request that is
+	// refused below must not touch the settings of the invocation in flight
+	maxDirectResponseSize := int64(interop.MaxPayloadSize)
 	if maxPayloadSize := r.Header.Get(MaxPayloadSizeHeader); maxPayloadSize != "" {
 		// the copy reads one byte past the limit to detect oversized responses, so limit+1 must not overflow
 		if n, err := strconv.ParseInt(maxPayloadSize, 10, 64); err == nil && n >= -1 && n < math.MaxInt64 {
-			MaxDirectResponseSize = n
+			maxDirectResponseSize = n
 		} else {
 			log.Error("MaxPayloadSize header is not a valid number")
 			renderBadRequest(w, r, interop.ErrInvalidMaxPayloadSize.Error())
@@ -118,7 +120,7 @@ func ReceiveDirectInvoke(w http.ResponseWriter, r *http.Request, token interop.T
 	}
 
 	// like the payload limit above, the response mode must not be inherited from an earlier request
-	InvokeResponseMode = interop.InvokeResponseModeBuffered
+	responseMode := interop.InvokeResponseModeBuffered
 	if valueFromHeader := r.Header.Get(InvokeResponseModeHeader); valueFromHeader != "" {
 		invokeResponseMode, err := convertToInvokeResponseMode(valueFromHeader)
 		if err != nil {
@@ -130,24 +132,25 @@ func ReceiveDirectInvoke(w http.ResponseWriter, r *http.Request, token interop.T
 			renderBadRequest(w, r, err.Error())
 			return nil, err
 		}
-		InvokeResponseMode = invokeResponseMode
+		responseMode = invokeResponseMode
 	}
 
 	// TODO: stop using `MaxDirectResponseSize`
-	if isStreamingInvoke(int(MaxDirectResponseSize), InvokeResponseMode) {
+	responseBandwidthRate, responseBandwidthBurstSize := ResponseBandwidthRate, ResponseBandwidthBurstSize
+	if isStreamingInvoke(int(maxDirectResponseSize), responseMode) {
 		w.Header().Add("Trailer", FunctionErrorTypeTrailer)
 		w.Header().Add("Trailer", FunctionErrorBodyTrailer)
 
 		// FIXME
 		// Until WorkerProxy stops sending MaxDirectResponseSize == -1 to identify streaming
 		// invokes, we need to override InvokeResponseMode to avoid setting InvokeResponseMode to buffered (default) for a streaming invoke (MaxDirectResponseSize == -1).
-		InvokeResponseMode = interop.InvokeResponseModeStreaming
+		responseMode = interop.InvokeResponseModeStreaming
 
-		ResponseBandwidthRate = interop.ResponseBandwidthRate
-		if responseBandwidthRate := r.Header.Get(ResponseBandwidthRateHeader); responseBandwidthRate != "" {
-			if n, err := strconv.ParseInt(responseBandwidthRate, 10, 64); err == nil &&
+		responseBandwidthRate = interop.ResponseBandwidthRate
+		if rateFromHeader := r.Header.Get(ResponseBandwidthRateHeader); rateFromHeader != "" {
+			if n, err := strconv.ParseInt(rateFromHeader, 10, 64); err == nil &&
 				interop.MinResponseBandwidthRate <= n && n <= interop.MaxResponseBandwidthRate {
-				ResponseBandwidthRate = n
+				responseBandwidthRate = n
 			} else {
 				log.Error("ResponseBandwidthRate header is not a valid number or is out of the allowed range")
 				renderBadRequest(w, r, interop.ErrInvalidResponseBandwidthRate.Error())
@@ -155,11 +158,11 @@ func ReceiveDirectInvoke(w http.ResponseWriter, r *http.Request, token interop.T
 			}
 		}
 
-		ResponseBandwidthBurstSize = interop.ResponseBandwidthBurstSize
-		if responseBandwidthBurstSize := r.Header.Get(ResponseBandwidthBurstSizeHeader); responseBandwidthBurstSize != "" {
-			if n, err := strconv.ParseInt(responseBandwidthBurstSize, 10, 64); err == nil &&
+		responseBandwidthBurstSize = interop.ResponseBandwidthBurstSize
+		if burstFromHeader := r.Header.Get(ResponseBandwidthBurstSizeHeader); burstFromHeader != "" {
+			if n, err := strconv.ParseInt(burstFromHeader, 10, 64); err == nil &&
 				interop.MinResponseBandwidthBurstSize <= n && n <= interop.MaxResponseBandwidthBurstSize {
-				ResponseBandwidthBurstSize = n
+				responseBandwidthBurstSize = n
 			} else {
 				log.Error("ResponseBandwidthBurstSize header is not a valid number or is out of the allowed range")
 				renderBadRequest(w, r, interop.ErrInvalidResponseBandwidthBurstSize.Error())
@@ -183,7 +186,7 @@ func ReceiveDirectInvoke(w http.ResponseWriter, r *http.Request, token interop.T
 		DeadlineNs:               fmt.Sprintf("%d", now+token.FunctionTimeout.Nanoseconds()),
 		NeedDebugLogs:            token.NeedDebugLogs,
 		InvokeReceivedTime:       now,
-		InvokeResponseMode:       InvokeResponseMode,
+		InvokeResponseMode:       responseMode,
 		RestoreDurationNs:        token.RestoreDurationNs,
 		RestoreStartTimeMonotime: token.RestoreStartTimeMonotime,
 	}
@@ -211,6 +214,11 @@ func ReceiveDirectInvoke(w http.ResponseWriter, r *http.Request, token interop.T
 	w.Header().Set(VersionIDHeader, token.VersionID)
 	w.Header().Set(ReservationTokenHeader, token.ReservationToken)
 	w.Header().Set(InvokeIDHeader, token.InvokeID)
+
+	MaxDirectResponseSize = maxDirectResponseSize
+	InvokeResponseMode = responseMode
+	ResponseBandwidthRate = responseBandwidthRate
+	ResponseBandwidthBurstSize = responseBandwidthBurstSize
 
 	return inv, nil
 }
